@@ -1,8 +1,13 @@
 import Gimli.Props.C12Line
 /-! Helper lemmas for the line component of C12: the simulation between the reader
 (`LineRows::next_row`, C04's `execute`/`traceInstrs`) and the converter (`read_row`,
-`Model/ConvLineRows.lean`) — the converter's rows are the reader's rows up to the offset of the
-last accepted `DW_LNE_set_address` — and its composition with the writer (C13). -/
+`Model/ConvLineRows.lean`) — the converter's rows are the reader's reported rows up to the offset
+of the last accepted `DW_LNE_set_address`; while a refused one (a tombstone) lasts both skip the
+same rows — and its composition with the writer (C13). This lifts the invariant `LInv` of
+`Props/C12.lean` (`line_addresses_aux`: reader (addr, tomb, opn) / converter (rel, fa, tomb,
+pending, opn) / writer prev / output reader cur) to whole rows: `Rel` (registers), `PendOk` +
+`R.address = eb + fromRow.address` (pending address / writer base), `WInv` (writer, output reader,
+`closed` when no row of the sequence has been reported). -/
 namespace Gimli.ConvLineRows
 open Gimli Gimli.Line Gimli.WLine Gimli.Props.C13
 
@@ -192,18 +197,72 @@ def isDefineFile : Instr → Bool
   | .defineFile _ => true
   | _ => false
 
-/-- **what the rows theorem assumes about the source program**, from reader registers `R`: the
-reader runs it without an error; every `DW_LNE_set_address` is accepted (not below the current
-address, below the tombstone values of the address size) — no tombstones; every row's line number
-is below 2^63 (finding C13-3 beyond) -/
-def Tame (h : Params) : Row → List Instr → Prop
-  | _, [] => True
-  | R, ins :: is =>
-    (∀ a, setAddrVal ins = some a → R.address ≤ a ∧ a < minTombstone h.addrSize) ∧
+/-- the reader's row while a refused `DW_LNE_set_address` (a tombstone) lasts: the address register
+is frozen at `A`, the other registers are the converter's -/
+def frozen (A : Nat) (r : Row) : Row := { r with address := A }
+
+theorem applyLineAdvance_frozen (A : Nat) (r : Row) (i : Int) :
+    applyLineAdvance (frozen A r) i = frozen A (applyLineAdvance r i) := by
+  unfold applyLineAdvance frozen
+  by_cases h1 : i < 0
+  · by_cases h2 : i.natAbs ≤ r.line
+    · simp [h1, h2]
+    · simp [h1, h2]
+  · simp [h1]
+
+theorem applyOperationAdvance_tomb (h : Params) (r : Row) (adv : Nat) (ht : r.tombstone = true) :
+    applyOperationAdvance h r adv = (r, none) := by
+  unfold applyOperationAdvance; rw [if_pos ht]
+
+/-- **inside a tombstone `execute` does not touch the address**: the reader's step (address frozen
+at `A`) and the converter's step (its stale relative address) are the same step, and it cannot
+fail -/
+theorem execute_frozen (h : Params) (A : Nat) (r : Row) (ins : Instr) (ht : r.tombstone = true)
+    (hins : isSetAddress ins = false) :
+    execute h (frozen A r) ins = (frozen A (execute h r ins).1, (execute h r ins).2) ∧
+    (execute h r ins).1.address = r.address ∧ (∀ e, (execute h r ins).2 ≠ .err e) := by
+  have htf : ∀ r : Row, r.tombstone = true → (frozen A r).tombstone = true := fun _ h => h
+  cases ins with
+  | setAddress a => simp [isSetAddress] at hins
+  | special op =>
+    have t1 : (applyLineAdvance r (h.lineBase + ↑(adjustOpcode h op % h.lineRange))).tombstone = true := by
+      rw [(applyLineAdvance_inv r _).2.2.1]; exact ht
+    simp only [execute, execSpecial, applyLineAdvance_frozen, applyOperationAdvance_tomb h _ _ t1,
+      applyOperationAdvance_tomb h _ _ (htf _ t1), Exec.ofAdv]
+    exact ⟨trivial, (applyLineAdvance_inv r _).1, by intro e; simp⟩
+  | advancePc n =>
+    simp only [execute, applyOperationAdvance_tomb h _ _ ht, applyOperationAdvance_tomb h _ _ (htf _ ht), Exec.ofAdv]
+    exact ⟨trivial, trivial, by intro e; simp⟩
+  | constAddPc =>
+    simp only [execute, applyOperationAdvance_tomb h _ _ ht, applyOperationAdvance_tomb h _ _ (htf _ ht), Exec.ofAdv]
+    exact ⟨trivial, trivial, by intro e; simp⟩
+  | fixedAddPc n =>
+    simp only [execute, if_pos ht, if_pos (htf _ ht)]
+    exact ⟨trivial, trivial, by intro e; simp⟩
+  | advanceLine i =>
+    simp only [execute, applyLineAdvance_frozen]
+    exact ⟨trivial, (applyLineAdvance_inv r _).1, by intro e; simp⟩
+  | _ =>
+    simp only [execute]
+    exact ⟨by first | rfl | simp [frozen], trivial, by intro e; simp⟩
+
+/-- **what the rows theorem assumes about the source program**, from reader registers `R` and
+`in_sequence = b`: the reader runs it without an error, and every row it *reports* has a line
+number below 2^63 (finding C13-3 beyond). `DW_LNE_set_address` is unrestricted: values below the
+current address and tombstone values (rows the reader skips) are allowed. -/
+def Tame (h : Params) : Row → Bool → List Instr → Prop
+  | _, _, [] => True
+  | R, b, ins :: is =>
     match execute h R ins with
     | (_, .err _) => False
-    | (R', .noEmit) => Tame h R' is
-    | (R', .emit) => R'.line < 2 ^ 63 ∧ Tame h (reset h R') is
+    | (R', .noEmit) => Tame h R' b is
+    | (R', .emit) =>
+      if skipRow R' b then Tame h (reset h R') b is
+      else R'.line < 2 ^ 63 ∧ Tame h (reset h R') (!R'.endSequence) is
+
+/-- what the caller of `LineRows::next_row` sees (`run` on decoded instructions) -/
+def vis (h : Params) (R : Row) (b : Bool) (is : List Instr) : List Ev :=
+  (traceInstrs h R b is).filter Ev.visible
 
 /-- `read_row` touches only the reader-side registers, the string tables, the index mappings
 (append only) and the file table of the program being built -/
@@ -298,22 +357,58 @@ def RowRel (h : Params) (st : CSt) (R : Row) : Prop :=
   st.fromRow.tombstone = false ∧ R = shift st.fromAddress st.fromRow ∧ st.fromRow.opIndex = 0 ∧
   R.address ≤ onesSized h.addrSize
 
-/-- what `read_row` returned, related to the reader's next row -/
-def RowSpec (h : Params) (st : CSt) (R : Row) (b : Bool) (is : List Instr) (lo : Nat) (p : Option Nat) :
+/-- the same inside `read_row`'s loop, where the local `tombstone` can be set: then the reader's
+address is frozen and `from_address` holds it -/
+def Rel (h : Params) (st : CSt) : Bool → Row → Prop
+  | false, R => RowRel h st R
+  | true, R => st.fromRow.tombstone = true ∧ R = frozen st.fromAddress st.fromRow ∧ st.fromRow.opIndex = 0 ∧
+      R.address ≤ onesSized h.addrSize
+
+theorem Rel.facts {h : Params} {st : CSt} {tomb : Bool} {R : Row} (hr : Rel h st tomb R) :
+    st.fromRow.tombstone = tomb ∧ st.fromRow.opIndex = 0 ∧ R.address ≤ onesSized h.addrSize ∧
+    R = frozen R.address st.fromRow ∧
+    R.address = (if tomb then st.fromAddress else st.fromRow.address + st.fromAddress) := by
+  cases tomb with
+  | false =>
+    obtain ⟨a, b, c, d⟩ := hr
+    refine ⟨a, c, d, ?_, ?_⟩
+    · rw [b]; rfl
+    · rw [b]; rfl
+  | true =>
+    obtain ⟨a, b, c, d⟩ := hr
+    refine ⟨a, c, d, ?_, ?_⟩
+    · rw [b]; rfl
+    · rw [b]; rfl
+
+theorem Rel.congr {h : Params} {st st1 : CSt} {tomb : Bool} {R : Row} (e1 : st1.fromRow = st.fromRow)
+    (e2 : st1.fromAddress = st.fromAddress) (hr : Rel h st tomb R) : Rel h st1 tomb R := by
+  cases tomb with
+  | false => unfold Rel RowRel at hr ⊢; rw [e1, e2]; exact hr
+  | true => unfold Rel at hr ⊢; rw [e1, e2]; exact hr
+
+/-- the pending `set_address` (if any) is the new base, not below the writer's previous row and
+not a tombstone; without one the base is unchanged -/
+def PendOk (p' : Option Nat) (base wbase prevOff mt : Nat) : Prop :=
+  match p' with
+  | some a => a = base ∧ wbase + prevOff ≤ a ∧ a < mt
+  | none => base = wbase
+
+/-- what `read_row` returned, related to the reader's next reported row (`wbase + prevOff` is the
+address of the last row handed to the writer) -/
+def RowSpec (h : Params) (st : CSt) (R : Row) (b : Bool) (is : List Instr) (wbase prevOff : Nat) :
     CRes (Option RowEv × CSt × List Instr) → Prop
-  | .ok (none, st', _) => traceInstrs h R b is = [] ∧ Frame st st'
+  | .ok (none, st', _) => vis h R b is = [] ∧ Frame st st'
   | .ok (some (.row p' w), st', rest) =>
-    ∃ R1, traceInstrs h R b is = Ev.row R1 :: traceInstrs h (reset h R1) true rest ∧
-      R1.endSequence = false ∧ RowRel h st' R1 ∧ Tame h (reset h R1) rest ∧ R1.line < 2 ^ 63 ∧
-      lo ≤ R1.address ∧ convertRow st' = .ok w ∧ Frame st st' ∧
-      (∀ a, p' = some a → a = st'.fromAddress ∧ lo ≤ a ∧ a < minTombstone h.addrSize) ∧
-      (p' = none → p = none ∧ st'.fromAddress = st.fromAddress)
+    ∃ R1, vis h R b is = Ev.row R1 :: vis h (reset h R1) true rest ∧
+      R1.endSequence = false ∧ RowRel h st' R1 ∧ st'.inSeq = true ∧ Tame h (reset h R1) true rest ∧
+      R1.line < 2 ^ 63 ∧ wbase + prevOff ≤ R1.address ∧ convertRow st' = .ok w ∧ Frame st st' ∧
+      PendOk p' st'.fromAddress wbase prevOff (minTombstone h.addrSize)
   | .ok (some (.endSeq p' off), st', rest) =>
-    ∃ R1, traceInstrs h R b is = Ev.row R1 :: traceInstrs h (Row.new h) false rest ∧
-      R1.endSequence = true ∧ RowRel h st' R1 ∧ Tame h (Row.new h) rest ∧
-      lo ≤ R1.address ∧ off = st'.fromRow.address ∧ off % h.minInstLen = 0 ∧ Frame st st' ∧
-      (∀ a, p' = some a → a = st'.fromAddress ∧ lo ≤ a ∧ a < minTombstone h.addrSize) ∧
-      (p' = none → p = none ∧ st'.fromAddress = st.fromAddress)
+    ∃ R1 eb, vis h R b is = Ev.row R1 :: vis h (Row.new h) false rest ∧
+      R1.endSequence = true ∧ st'.fromRow.endSequence = true ∧ st'.inSeq = false ∧
+      Tame h (Row.new h) false rest ∧ wbase + prevOff ≤ R1.address ∧ R1.address = eb + off ∧
+      R1.address ≤ onesSized h.addrSize ∧ off % h.minInstLen = 0 ∧ Frame st st' ∧
+      PendOk p' eb wbase prevOff (minTombstone h.addrSize)
   | .err _ => True
   | .panic _ => True
 
@@ -325,11 +420,10 @@ theorem isDefineFile_true {ins : Instr} (h : isDefineFile ins = true) : ∃ f, i
   cases ins <;> simp [isDefineFile] at h
   exact ⟨_, rfl⟩
 
-theorem RowSpec.lift {h : Params} {st st1 : CSt} {R R1 : Row} {b : Bool} {is : List Instr} {ins : Instr}
-    {lo : Nat} {p p1 : Option Nat} {res : CRes (Option RowEv × CSt × List Instr)}
-    (htr : traceInstrs h R b (ins :: is) = traceInstrs h R1 b is) (hf : Frame st st1)
-    (hp : p1 = none → p = none ∧ st1.fromAddress = st.fromAddress)
-    (hs : RowSpec h st1 R1 b is lo p1 res) : RowSpec h st R b (ins :: is) lo p res := by
+theorem RowSpec.lift {h : Params} {st st1 : CSt} {R R1 : Row} {b b1 : Bool} {is : List Instr} {ins : Instr}
+    {wbase prevOff : Nat} {res : CRes (Option RowEv × CSt × List Instr)}
+    (htr : vis h R b (ins :: is) = vis h R1 b1 is) (hf : Frame st st1)
+    (hs : RowSpec h st1 R1 b1 is wbase prevOff res) : RowSpec h st R b (ins :: is) wbase prevOff res := by
   cases res with
   | err e => trivial
   | panic w => trivial
@@ -342,17 +436,11 @@ theorem RowSpec.lift {h : Params} {st st1 : CSt} {R R1 : Row} {b : Bool} {is : L
       | row p' w =>
         simp only [RowSpec] at hs ⊢
         obtain ⟨Rr, h1, h2, h3, h4, h5, h6, h7, h8, h9, h10⟩ := hs
-        refine ⟨Rr, by rw [htr]; exact h1, h2, h3, h4, h5, h6, h7, hf.trans h8, h9, fun hn => ?_⟩
-        obtain ⟨e1, e2⟩ := h10 hn
-        obtain ⟨e3, e4⟩ := hp e1
-        exact ⟨e3, e2.trans e4⟩
+        exact ⟨Rr, by rw [htr]; exact h1, h2, h3, h4, h5, h6, h7, h8, hf.trans h9, h10⟩
       | endSeq p' off =>
         simp only [RowSpec] at hs ⊢
-        obtain ⟨Rr, h1, h2, h3, h4, h5, h6, h7, h8, h9, h10⟩ := hs
-        refine ⟨Rr, by rw [htr]; exact h1, h2, h3, h4, h5, h6, h7, hf.trans h8, h9, fun hn => ?_⟩
-        obtain ⟨e1, e2⟩ := h10 hn
-        obtain ⟨e3, e4⟩ := hp e1
-        exact ⟨e3, e2.trans e4⟩
+        obtain ⟨Rr, eb, h1, h2, h3, h4, h5, h6, h7, h8, h9, h10, h11⟩ := hs
+        exact ⟨Rr, eb, by rw [htr]; exact h1, h2, h3, h4, h5, h6, h7, h8, h9, hf.trans h10, h11⟩
 
 theorem minTombstone_lt (size : Nat) : minTombstone size < 2 ^ 64 := by
   unfold minTombstone
@@ -364,158 +452,284 @@ theorem minTombstone_lt (size : Nat) : minTombstone size < 2 ^ 64 := by
     have : (2 ^ 64 - 2) % 2 ^ (8 * size) = 2 ^ 64 - 2 := Nat.mod_eq_of_lt (by omega)
     omega
 
-theorem readRowLoop_sim (strs : Strs) (h : Params) (hm : h.maxOps = 1) :
-    ∀ (is : List Instr) (p : Option Nat) (st : CSt) (R : Row) (b : Bool) (lo : Nat),
-    RowRel h st R → Tame h R is → lo ≤ R.address →
-    (∀ a, p = some a → a = st.fromAddress ∧ lo ≤ a ∧ a < minTombstone h.addrSize) →
+theorem vis_noEmit {h : Params} {R R' : Row} {b : Bool} {ins : Instr} {is : List Instr}
+    (hE : execute h R ins = (R', .noEmit)) : vis h R b (ins :: is) = vis h R' b is := by
+  rw [vis, traceInstrs, hE]; rfl
+
+theorem vis_hidden {h : Params} {R R' : Row} {b : Bool} {ins : Instr} {is : List Instr}
+    (hE : execute h R ins = (R', .emit)) (hs : skipRow R' b = true) :
+    vis h R b (ins :: is) = vis h (reset h R') b is := by
+  rw [vis, traceInstrs, hE]
+  simp only [hs, ↓reduceIte, List.filter_cons, Ev.visible, Bool.false_eq_true]
+  rfl
+
+theorem vis_row {h : Params} {R R' : Row} {b : Bool} {ins : Instr} {is : List Instr}
+    (hE : execute h R ins = (R', .emit)) (hs : skipRow R' b = false) :
+    vis h R b (ins :: is) = Ev.row R' :: vis h (reset h R') (!R'.endSequence) is := by
+  rw [vis, traceInstrs, hE]
+  simp only [hs, Bool.false_eq_true, ↓reduceIte, List.filter_cons, Ev.visible]
+  rfl
+
+/-- **one `read_row` against the reader's next reported row**, tombstones included: from related
+registers (`Rel`, `in_sequence` equal) the loop of `read_row` either fails, or returns nothing
+exactly when the reader reports nothing more, or returns the row / end of sequence the reader
+reports next — the rows the reader skips (inside a tombstone, `skipRow`) are skipped, a sequence
+that has already reported rows still gets its end, at the reader's (frozen) address -/
+theorem readRowLoop_sim (strs : Strs) (h : Params) (hm : h.maxOps = 1) (hsz : h.addrSize ≤ 8)
+    (wbase prevOff : Nat) :
+    ∀ (is : List Instr) (tomb : Bool) (p : Option Nat) (st : CSt) (R : Row) (b : Bool) (eb : Nat),
+    Rel h st tomb R → st.inSeq = b → Tame h R b is → wbase + prevOff ≤ R.address →
+    PendOk p eb wbase prevOff (minTombstone h.addrSize) → R.address = eb + st.fromRow.address →
+    (b = false → wbase = 0 ∧ prevOff = 0) →
     st.prog.enc.minInstLen = h.minInstLen →
-    RowSpec h st R b is lo p (readRowLoop strs h false p st is) := by
+    RowSpec h st R b is wbase prevOff (readRowLoop strs h tomb p st is) := by
   intro is
   induction is with
   | nil =>
-    intro p st R b lo _ _ _ _ _
-    simp [readRowLoop, RowSpec, traceInstrs, Frame.refl]
+    intro tomb p st R b eb _ _ _ _ _ _ _ _
+    simp [readRowLoop, RowSpec, vis, traceInstrs, Frame.refl]
   | cons ins is ih =>
-    intro p st R b lo hrel htame hlo hp hmin
-    obtain ⟨hnt, hR, hop, hones⟩ := hrel
+    intro tomb p st R b eb hrel hinseq htame hlo hp hbase hclosed hmin
+    obtain ⟨hnt, hop, hones, hRf, hRa⟩ := hrel.facts
+    have hones64 := onesSized_lt h.addrSize hsz
     rw [Tame] at htame
-    obtain ⟨hsa, hex⟩ := htame
     cases hv : setAddrVal ins with
     | some a =>
-      -- DW_LNE_set_address, accepted
+      -- DW_LNE_set_address
       have hins := setAddrVal_some hv
       subst hins
-      obtain ⟨hge, hlt⟩ := hsa a rfl
       have hlt64 := minTombstone_lt h.addrSize
-      have hRa : R.address = st.fromRow.address + st.fromAddress := by rw [hR]; rfl
-      have hfa : (st.fromAddress + st.fromRow.address) % 2 ^ 64 = R.address := by
-        rw [hRa, Nat.add_comm]; apply Nat.mod_eq_of_lt; omega
-      have hexec : execute h R (.setAddress a) =
-          ({ R with tombstone := false, address := a, opIndex := 0 }, .noEmit) := by
-        simp only [execute]
-        have : (decide (a < R.address) || decide (a ≥ minTombstone h.addrSize)) = false := by
-          simp; omega
-        rw [this]; rfl
-      rw [hexec] at hex
+      have hfa : (if tomb = true then st.fromAddress else (st.fromAddress + st.fromRow.address) % 2 ^ 64) =
+          R.address := by
+        rw [hRa]
+        cases tomb with
+        | true => rfl
+        | false =>
+          simp only [Bool.false_eq_true, ↓reduceIte] at hRa ⊢
+          rw [Nat.add_comm]; apply Nat.mod_eq_of_lt; omega
       rw [readRowLoop]
-      simp only [Bool.false_eq_true, ↓reduceIte, hfa]
-      have htomb : (decide (a < R.address) || decide (a ≥ minTombstone h.addrSize)) = false := by
-        simp; omega
-      rw [htomb]
-      simp only [Bool.false_eq_true, ↓reduceIte]
-      refine RowSpec.lift (R1 := { R with tombstone := false, address := a, opIndex := 0 }) ?_ ?_ ?_
-        (ih (some a) _ _ b lo ?_ hex ?_ ?_ hmin)
-      · rw [traceInstrs, hexec]
-      · exact ⟨rfl, rfl, rfl, rfl, rfl, [], by simp⟩
-      · intro hn; cases hn
-      · refine ⟨rfl, ?_, rfl, ?_⟩
-        · rw [hR]; simp [shift]
-        · show a ≤ onesSized h.addrSize
-          have := minTombstone_le h.addrSize; omega
-      · show lo ≤ a; omega
-      · intro a' ha'; cases ha'; exact ⟨rfl, by omega, hlt⟩
+      simp only [hfa]
+      cases htomb : (decide (a < R.address) || decide (a ≥ minTombstone h.addrSize)) with
+      | true =>
+        -- refused: the reader's address freezes, `from_address` takes it
+        have hexec : execute h R (.setAddress a) = ({ R with tombstone := true }, .noEmit) := by
+          simp only [execute, htomb, ↓reduceIte]
+        rw [hexec] at htame
+        simp only [↓reduceIte]
+        refine RowSpec.lift (R1 := { R with tombstone := true }) (b1 := b) (vis_noEmit hexec)
+          ⟨rfl, rfl, rfl, rfl, rfl, [], by simp⟩
+          (ih true p _ _ b eb ?_ hinseq htame hlo hp hbase hclosed hmin)
+        refine ⟨rfl, ?_, hop, hones⟩
+        rw [hRf]; rfl
+      | false =>
+        -- accepted
+        have hacc : R.address ≤ a ∧ a < minTombstone h.addrSize := by
+          simp only [Bool.or_eq_false_iff, decide_eq_false_iff_not, Nat.not_lt, ge_iff_le, Nat.not_le] at htomb
+          exact htomb
+        have hexec : execute h R (.setAddress a) =
+            ({ R with tombstone := false, address := a, opIndex := 0 }, .noEmit) := by
+          simp only [execute, htomb]; rfl
+        rw [hexec] at htame
+        simp only [Bool.false_eq_true, ↓reduceIte]
+        refine RowSpec.lift (R1 := { R with tombstone := false, address := a, opIndex := 0 }) (b1 := b)
+          (vis_noEmit hexec) ⟨rfl, rfl, rfl, rfl, rfl, [], by simp⟩
+          (ih false (some a) _ _ b a ?_ hinseq htame ?_ ?_ ?_ hclosed hmin)
+        · refine ⟨rfl, ?_, rfl, ?_⟩
+          · rw [hRf]; simp [shift, frozen]
+          · show a ≤ onesSized h.addrSize
+            have := minTombstone_le h.addrSize; omega
+        · show wbase + prevOff ≤ a; omega
+        · exact ⟨rfl, by omega, hacc.2⟩
+        · show a = a + 0; rfl
     | none =>
       by_cases hdf : isDefineFile ins = true
       · -- DW_LNE_define_file
         obtain ⟨f, hf⟩ := isDefineFile_true hdf
         subst hf
         have hexec : execute h R (.defineFile f) = (R, .noEmit) := rfl
-        rw [hexec] at hex
+        rw [hexec] at htame
         rw [readRowLoop]
         cases hc : convertFile strs st f with
         | err e => simp [RowSpec]
         | panic w => simp [RowSpec]
         | ok st1 =>
           simp only
-          obtain ⟨hfr, e1, e2, _⟩ := convertFile_frame strs st st1 f hc
-          refine RowSpec.lift (R1 := R) ?_ hfr (fun hn => ⟨hn, e2⟩)
-            (ih p st1 R b lo ⟨by rw [e1]; exact hnt, by rw [e1, e2]; exact hR, by rw [e1]; exact hop, hones⟩ hex hlo
-              (by rw [e2]; exact hp) (by rw [hfr.2.2.2.2.1]; exact hmin))
-          · rw [traceInstrs, hexec]
+          obtain ⟨hfr, e1, e2, e3⟩ := convertFile_frame strs st st1 f hc
+          exact RowSpec.lift (R1 := R) (b1 := b) (vis_noEmit hexec) hfr
+            (ih tomb p st1 R b eb (hrel.congr e1 e2) (by rw [e3]; exact hinseq) htame hlo hp
+              (by rw [e1]; exact hbase) hclosed (by rw [hfr.2.2.2.2.1]; exact hmin))
       · -- every other instruction: the same `execute` step on both sides
         have hdf' : isDefineFile ins = false := by simpa using hdf
         have hsa' : isSetAddress ins = false := by
           cases ins <;> first | rfl | (simp [setAddrVal] at hv)
-        rw [readRowLoop_other strs h false p st ins is hv hdf']
-        cases hE : execute h R ins with
-        | mk R' x =>
-          rw [hE] at hex
-          cases x with
-          | err e => exact absurd hex (by simp)
-          | noEmit =>
-            simp only at hex
-            obtain ⟨r', hr', hRr⟩ := execute_shift h st.fromAddress st.fromRow ins hnt hsa' R' .noEmit
-              (by rw [← hR]; exact hE) (by intro e; simp)
-            rw [hr']
-            simp only
-            have hnt' : r'.tombstone = false := by
-              have := execute_tombstone h st.fromRow ins hsa'
-              rw [hr'] at this; rw [this]; exact hnt
-            have hop' : r'.opIndex = 0 := by
-              have := execute_opIndex h hm st.fromRow ins hop
-              rw [hr'] at this; exact this
+        rw [readRowLoop_other strs h tomb p st ins is hv hdf']
+        have hop' : (execute h st.fromRow ins).1.opIndex = 0 := execute_opIndex h hm st.fromRow ins hop
+        have hnt' : (execute h st.fromRow ins).1.tombstone = tomb := by
+          rw [execute_tombstone h st.fromRow ins hsa']; exact hnt
+        cases tomb with
+        | false =>
+          obtain ⟨_, hR, _, _⟩ := hrel
+          simp only [Bool.false_eq_true, ↓reduceIte] at hRa
+          cases hE : execute h R ins with
+          | mk R' x =>
+            rw [hE] at htame
             have hmono : R.address ≤ R'.address := by
               have := (execute_inv h R ins).1
               rw [hE] at this; exact this
             have hones' : R'.address ≤ onesSized h.addrSize := by
               have := (execute_inv h R ins).2.1 hones
               rw [hE] at this; exact this
-            refine RowSpec.lift (R1 := R') ?_ ⟨rfl, rfl, rfl, rfl, rfl, [], by simp⟩ (fun hn => ⟨hn, rfl⟩)
-              (ih p _ R' b lo ⟨hnt', hRr, hop', hones'⟩ hex (by omega) hp hmin)
-            rw [traceInstrs, hE]
-          | emit =>
-            simp only at hex
-            obtain ⟨hline, htame'⟩ := hex
-            obtain ⟨r', hr', hRr⟩ := execute_shift h st.fromAddress st.fromRow ins hnt hsa' R' .emit
-              (by rw [← hR]; exact hE) (by intro e; simp)
-            rw [hr']
-            simp only [Bool.false_and, Bool.false_eq_true, ↓reduceIte]
-            have hnt' : r'.tombstone = false := by
-              have := execute_tombstone h st.fromRow ins hsa'
-              rw [hr'] at this; rw [this]; exact hnt
-            have hntR : R'.tombstone = false := by rw [hRr]; exact hnt'
-            have hop' : r'.opIndex = 0 := by
-              have := execute_opIndex h hm st.fromRow ins hop
-              rw [hr'] at this; exact this
-            have hmono : R.address ≤ R'.address := by
-              have := (execute_inv h R ins).1
-              rw [hE] at this; exact this
-            have hones' : R'.address ≤ onesSized h.addrSize := by
-              have := (execute_inv h R ins).2.1 hones
-              rw [hE] at this; exact this
-            have hend : R'.endSequence = r'.endSequence := by rw [hRr]; rfl
-            have htr : traceInstrs h R b (ins :: is) =
-                Ev.row R' :: traceInstrs h (reset h R') (!R'.endSequence) is := by
-              rw [traceInstrs, hE]
-              simp [skipRow, hntR]
-            by_cases he : r'.endSequence = true
-            · rw [if_pos he]
-              by_cases hal : r'.address % h.minInstLen ≠ 0
-              · rw [if_pos hal]; trivial
-              · rw [if_neg hal]
-                simp only [RowSpec]
-                have hres : reset h R' = Row.new h := by
-                  unfold reset; rw [hend, he]; rfl
-                refine ⟨R', ?_, by rw [hend]; exact he, ⟨hnt', hRr, hop', hones'⟩, by rw [← hres]; exact htame', by omega,
-                  by first | rfl | trivial, by omega, ⟨rfl, rfl, rfl, rfl, rfl, [], by simp⟩, hp,
-                  fun hn => ⟨hn, by first | rfl | trivial⟩⟩
-                rw [htr, hres, hend, he]; rfl
-            · rw [if_neg he]
-              cases hc : convertRow { st with fromRow := r', inSeq := true } with
-              | err e => trivial
-              | panic w => trivial
-              | ok w =>
-                simp only [RowSpec]
-                have he' : r'.endSequence = false := by simpa using he
-                refine ⟨R', ?_, by rw [hend]; exact he', ⟨hnt', hRr, hop', hones'⟩, htame', hline, by omega, hc,
-                  ⟨rfl, rfl, rfl, rfl, rfl, [], by simp⟩, hp, fun hn => ⟨hn, by first | rfl | trivial⟩⟩
-                rw [htr, hend, he']; rfl
+            cases x with
+            | err e => exact absurd htame (by simp)
+            | noEmit =>
+              simp only at htame
+              obtain ⟨r', hr', hRr⟩ := execute_shift h st.fromAddress st.fromRow ins hnt hsa' R' .noEmit
+                (by rw [← hR]; exact hE) (by intro e; simp)
+              rw [hr'] at hop' hnt' ⊢
+              simp only at hop' hnt' ⊢
+              refine RowSpec.lift (R1 := R') (b1 := b) (vis_noEmit hE) ⟨rfl, rfl, rfl, rfl, rfl, [], by simp⟩
+                (ih false p _ R' b eb ⟨hnt', hRr, hop', hones'⟩ hinseq htame (by omega) hp ?_ hclosed hmin)
+              show R'.address = eb + r'.address
+              rw [hRr]; show r'.address + st.fromAddress = eb + r'.address; omega
+            | emit =>
+              simp only at htame
+              obtain ⟨r', hr', hRr⟩ := execute_shift h st.fromAddress st.fromRow ins hnt hsa' R' .emit
+                (by rw [← hR]; exact hE) (by intro e; simp)
+              rw [hr'] at hop' hnt' ⊢
+              simp only at hop' hnt'
+              simp only [Bool.false_and, Bool.false_eq_true, ↓reduceIte]
+              have hntR : R'.tombstone = false := by rw [hRr]; exact hnt'
+              have hsk : skipRow R' b = false := by simp [skipRow, hntR]
+              rw [hsk] at htame
+              simp only [Bool.false_eq_true, ↓reduceIte] at htame
+              obtain ⟨hline, htame'⟩ := htame
+              have hend : R'.endSequence = r'.endSequence := by rw [hRr]; rfl
+              have hR'a : R'.address = r'.address + st.fromAddress := by rw [hRr]; rfl
+              have hfa : st.fromAddress = eb := by omega
+              have htr := vis_row (is := is) hE hsk
+              by_cases he : r'.endSequence = true
+              · rw [if_pos he]
+                by_cases hal : r'.address % h.minInstLen ≠ 0
+                · rw [if_pos hal]; trivial
+                · rw [if_neg hal]
+                  simp only [RowSpec]
+                  have hres : reset h R' = Row.new h := by
+                    unfold reset; rw [hend, he]; rfl
+                  rw [hend, he, hres] at htr htame'
+                  exact ⟨R', eb, htr, by rw [hend]; exact he, he, by first | rfl | trivial, htame', by omega,
+                    by show R'.address = eb + r'.address; omega, hones', by omega,
+                    ⟨rfl, rfl, rfl, rfl, rfl, [], by simp⟩, hp⟩
+              · rw [if_neg he]
+                cases hc : convertRow { st with fromRow := r', inSeq := true } with
+                | err e => trivial
+                | panic w => trivial
+                | ok w =>
+                  simp only [RowSpec]
+                  have he' : r'.endSequence = false := by simpa using he
+                  rw [hend, he'] at htr htame'
+                  exact ⟨R', htr, by rw [hend]; exact he', ⟨hnt', hRr, hop', hones'⟩, by first | rfl | trivial, htame', hline,
+                    by omega, hc, ⟨rfl, rfl, rfl, rfl, rfl, [], by simp⟩,
+                    by show PendOk p st.fromAddress _ _ _; rw [hfa]; exact hp⟩
+        | true =>
+          -- inside a tombstone: nothing moves the address; rows are skipped, except the end of a
+          -- sequence that has already reported rows
+          obtain ⟨_, hR, _, _⟩ := hrel
+          simp only [↓reduceIte] at hRa
+          obtain ⟨hstep, haddr, hnoerr⟩ := execute_frozen h st.fromAddress st.fromRow ins hnt hsa'
+          rw [← hR] at hstep
+          cases hr' : execute h st.fromRow ins with
+          | mk r' x =>
+            rw [hr'] at hstep haddr hnoerr hop' hnt'
+            simp only at hstep haddr hnoerr hop' hnt'
+            rw [hstep] at htame
+            have hR'a : (frozen st.fromAddress r').address = R.address := hRa.symm
+            have hrel' : ∀ r'' : Row, r''.tombstone = true → r''.opIndex = 0 →
+                Rel h { st with fromRow := r'' } true (frozen st.fromAddress r'') :=
+              fun r'' t o => ⟨t, rfl, o, by show st.fromAddress ≤ _; rw [← hRa]; exact hones⟩
+            cases x with
+            | err e => exact absurd rfl (hnoerr e)
+            | noEmit =>
+              simp only at htame ⊢
+              exact RowSpec.lift (R1 := frozen st.fromAddress r') (b1 := b) (vis_noEmit hstep)
+                ⟨rfl, rfl, rfl, rfl, rfl, [], by simp⟩
+                (ih true p _ _ b eb (hrel' r' hnt' hop') hinseq htame (by rw [hR'a]; exact hlo) hp
+                  (by rw [hR'a]; show R.address = eb + r'.address; rw [haddr]; exact hbase) hclosed hmin)
+            | emit =>
+              simp only at htame ⊢
+              have hskeq : skipRow (frozen st.fromAddress r') b = (true && !(r'.endSequence && st.inSeq)) := by
+                rw [hinseq]; simp [skipRow, frozen, hnt']
+              rw [← hskeq]
+              cases hsk : skipRow (frozen st.fromAddress r') b with
+              | true =>
+                rw [hsk] at htame
+                simp only [↓reduceIte] at htame ⊢
+                by_cases he : r'.endSequence = true
+                · -- the whole sequence was a tombstone: nothing was written for it
+                  rw [if_pos he]
+                  have hb : b = false := skipRow_end hsk he
+                  obtain ⟨hw0, hp0⟩ := hclosed hb
+                  have hres : reset h (frozen st.fromAddress r') = Row.new h := by
+                    unfold reset; rw [if_pos (show (frozen st.fromAddress r').endSequence = true from he)]
+                  have hres' : reset h r' = Row.new h := by unfold reset; rw [if_pos he]
+                  rw [hres] at htame
+                  rw [hres']
+                  refine RowSpec.lift (R1 := Row.new h) (b1 := b) (by rw [vis_hidden hstep hsk, hres])
+                    ⟨rfl, rfl, rfl, rfl, rfl, [], by simp⟩
+                    (ih false none _ _ b 0 ?_ hinseq htame ?_ ?_ ?_ hclosed hmin)
+                  · exact ⟨rfl, by simp [shift, Row.new], rfl, by simp [Row.new]⟩
+                  · rw [hw0, hp0]; exact Nat.zero_le _
+                  · show 0 = wbase; omega
+                  · simp [Row.new]
+                · rw [if_neg he]
+                  have he' : r'.endSequence = false := by simpa using he
+                  have hres : reset h (frozen st.fromAddress r') = frozen st.fromAddress (reset h r') := by
+                    simp [reset, frozen, he']
+                  have hresa : (reset h r').address = r'.address := by rw [reset_address, he']; rfl
+                  rw [hres] at htame
+                  refine RowSpec.lift (R1 := frozen st.fromAddress (reset h r')) (b1 := b)
+                    (by rw [vis_hidden hstep hsk, hres]) ⟨rfl, rfl, rfl, rfl, rfl, [], by simp⟩
+                    (ih true p _ _ b eb (hrel' _ (by simp [reset, he', hnt']) (by simp [reset, he', hop']))
+                      hinseq htame (by show wbase + prevOff ≤ st.fromAddress; rw [← hRa]; exact hlo) hp ?_ hclosed hmin)
+                  show st.fromAddress = eb + (reset h r').address
+                  rw [hresa, haddr, ← hRa]; exact hbase
+              | false =>
+                -- not skipped: the end of a sequence that has reported rows
+                rw [hsk] at htame
+                simp only [Bool.false_eq_true, ↓reduceIte] at htame ⊢
+                obtain ⟨_, htame'⟩ := htame
+                have he : r'.endSequence = true := by
+                  cases hx : r'.endSequence with
+                  | true => rfl
+                  | false => simp [skipRow, frozen, hnt', hx] at hsk
+                have hres : reset h (frozen st.fromAddress r') = Row.new h := by
+                  unfold reset; rw [if_pos (show (frozen st.fromAddress r').endSequence = true from he)]
+                have htr := vis_row (is := is) hstep hsk
+                rw [hres, show (frozen st.fromAddress r').endSequence = true from he] at htr htame'
+                rw [if_pos he]
+                by_cases hal : r'.address % h.minInstLen ≠ 0
+                · rw [if_pos hal]; trivial
+                · rw [if_neg hal]
+                  simp only [RowSpec]
+                  exact ⟨frozen st.fromAddress r', eb, htr, he, he, by first | rfl | trivial, htame', by rw [hR'a]; exact hlo,
+                    by rw [hR'a, haddr]; exact hbase, by rw [hR'a]; exact hones, by omega,
+                    ⟨rfl, rfl, rfl, rfl, rfl, [], by simp⟩, hp⟩
 
-theorem RowRel_reset (h : Params) (st : CSt) (R : Row) (hr : RowRel h st R) :
+/-- what relates the converter's registers to the reader's last reported row between two
+`read_row` calls: after a row, `RowRel`; after the end of a sequence both reset to the initial
+registers whatever they hold -/
+def LastRel (h : Params) (st : CSt) (Rlast : Row) : Prop :=
+  (Rlast.endSequence = true ∧ st.fromRow.endSequence = true) ∨ RowRel h st Rlast
+
+theorem LastRel.endEq {h : Params} {st : CSt} {R : Row} (hr : LastRel h st R) :
+    R.endSequence = st.fromRow.endSequence := by
+  rcases hr with ⟨a, b⟩ | ⟨_, hR, _, _⟩
+  · rw [a, b]
+  · rw [hR]; rfl
+
+theorem RowRel_reset (h : Params) (st : CSt) (R : Row) (hr : LastRel h st R) :
     RowRel h { st with fromAddress := if st.fromRow.endSequence then 0 else st.fromAddress,
                        fromRow := reset h st.fromRow } (reset h R) := by
-  obtain ⟨hnt, hR, hop, hones⟩ := hr
-  have hend : R.endSequence = st.fromRow.endSequence := by rw [hR]; rfl
+  have hend := hr.endEq
   by_cases he : st.fromRow.endSequence = true
   · have e1 : reset h R = Row.new h := by unfold reset; rw [hend, he]; rfl
     have e2 : reset h st.fromRow = Row.new h := by unfold reset; rw [he]; rfl
@@ -524,6 +738,8 @@ theorem RowRel_reset (h : Params) (st : CSt) (R : Row) (hr : RowRel h st R) :
     exact ⟨rfl, by simp [shift, Row.new], rfl, by simp [Row.new]⟩
   · have he' : st.fromRow.endSequence = false := by simpa using he
     have hendR : R.endSequence = false := by rw [hend, he']
+    rcases hr with ⟨a, _⟩ | ⟨hnt, hR, hop, hones⟩
+    · rw [a] at hendR; cases hendR
     refine ⟨?_, ?_, ?_, ?_⟩
     · simp [reset, he', hnt]
     · rw [hR]; simp [reset, shift, he']
@@ -577,13 +793,6 @@ def prevAfter (p' : Option Nat) (prev : WRow) : WRow :=
   match p' with
   | some _ => { prev with addressOffset := 0, opIndex := 0 }
   | none => prev
-
-/-- the pending `set_address` (if any) is the new base, not below the writer's previous row and
-not a tombstone; without one the base is unchanged -/
-def PendOk (p' : Option Nat) (base wbase prevOff mt : Nat) : Prop :=
-  match p' with
-  | some a => a = base ∧ wbase + prevOff ≤ a ∧ a < mt
-  | none => base = wbase
 
 /-- the driver's step for a row event, read back -/
 theorem applyEv_row_sim (m : Mode) (en : Endian) (format : Format) (addrSize : Nat) (st' : CSt)
@@ -685,48 +894,55 @@ def WInv (h : Params) (st : CSt) (Rlast : Row) (wbase : Nat) (Rout : Row) : Prop
   st.prog.prevRow.cleared = st.prog.prevRow ∧ st.prog.prevRow.opIndex = 0 ∧ st.prog.row.opIndex = 0 ∧
   st.prog.prevRow.line < 2 ^ 63 ∧ st.prog.prevRow.addressOffset % st.prog.enc.minInstLen = 0 ∧
   wbase + st.prog.prevRow.addressOffset ≤ (reset h Rlast).address ∧
-  wbase = (if Rlast.endSequence then 0 else st.fromAddress)
+  wbase = (if Rlast.endSequence then 0 else st.fromAddress) ∧
+  (st.inSeq = false → wbase = 0 ∧ st.prog.prevRow.addressOffset = 0)
 
 theorem rowNew_agree (h : Params) (en : Endian) (format : Format) (addrSize : Nat) (e : Enc)
     (ha : Agree h addrSize e) : Row.new (readerParams en format addrSize e) = Row.new h := by
   simp [Row.new, readerParams, ha.2.2.2]
 
+/-- **the whole conversion loop, written and read back, against the reader on the source** — any
+`DW_LNE_set_address` (accepted, lower than the current address, tombstone values), `max_ops = 1` -/
 theorem convLoop_sim (m : Mode) (en : Endian) (format : Format) (addrSize : Nat) (strs : Strs) (h : Params)
     (hm : h.maxOps = 1) (hasz : addrSize = 1 ∨ addrSize = 2 ∨ addrSize = 4 ∨ addrSize = 8) :
-    ∀ (fuel : Nat) (is : List Instr) (st stf : CSt) (Rlast : Row) (bin : Bool) (wbase : Nat) (Rout : Row),
+    ∀ (fuel : Nat) (is : List Instr) (st stf : CSt) (Rlast : Row) (wbase : Nat) (Rout : Row),
     is.length < fuel → convLoop m strs h fuel st is = .ok stf →
     Agree h addrSize st.prog.enc → EncOk st.prog.enc → st.prog.enc.version ≤ 5 →
-    RowRel h st Rlast → Tame h (reset h Rlast) is → WInv h st Rlast wbase Rout →
+    LastRel h st Rlast → Tame h (reset h Rlast) st.inSeq is → WInv h st Rlast wbase Rout →
     ∃ new more, stf.prog.instrs = st.prog.instrs ++ new ∧ stf.files = st.files ++ more ∧
       stf.prog.enc = st.prog.enc ∧
       ∀ bout, (traceInstrs (readerParams en format addrSize st.prog.enc) Rout bout
           (new.map (WInstr.toInstr st.prog.enc.version))).map obsOut =
-        (traceInstrs h (reset h Rlast) bin is).map
+        (vis h (reset h Rlast) st.inSeq is).map
           (obsIn (fun i => fileRaw st.prog.enc.version (stf.files.getD i 0))) := by
   intro fuel
   induction fuel with
-  | zero => intro is _ _ _ _ _ _ hf; omega
+  | zero => intro is _ _ _ _ _ hf; omega
   | succ fuel ih =>
-    intro is st stf Rlast bin wbase Rout hfuel hconv hag henc hv hrel htame hw
+    intro is st stf Rlast wbase Rout hfuel hconv hag henc hv hrel htame hw
     rw [convLoop] at hconv
     unfold readRow at hconv
     -- read_row's prologue
     have hrel0 := RowRel_reset h st Rlast hrel
-    obtain ⟨hRout, hcl, hpop, hrop, hpline, hpal, hlo, hwb⟩ := hw
+    obtain ⟨hRout, hcl, hpop, hrop, hpline, hpal, hlo, hwb, hclosed⟩ := hw
     have hminEq : st.prog.enc.minInstLen = h.minInstLen := hag.2.1.symm
-    have hspec := readRowLoop_sim strs h hm is none
+    have hendEq : Rlast.endSequence = st.fromRow.endSequence := hrel.endEq
+    have hsz8 : addrSize ≤ 8 := by omega
+    have hsz8' : h.addrSize ≤ 8 := by rw [hag.1]; exact hsz8
+    have hones64 := onesSized_lt addrSize hsz8
+    have hspec := readRowLoop_sim strs h hm hsz8' wbase st.prog.prevRow.addressOffset is false none
       { st with fromAddress := if st.fromRow.endSequence then 0 else st.fromAddress,
                 fromRow := reset h st.fromRow }
-      (reset h Rlast) bin (wbase + st.prog.prevRow.addressOffset) hrel0 htame hlo
-      (by intro a ha; cases ha) hminEq
+      (reset h Rlast) st.inSeq wbase hrel0 rfl htame hlo rfl
+      (by
+        have := hrel0.2.1
+        rw [this]; show _ + _ = wbase + _
+        rw [hwb, hendEq]; exact Nat.add_comm _ _)
+      hclosed hminEq
     generalize hst0 : ({ st with fromAddress := if st.fromRow.endSequence then 0 else st.fromAddress,
                                  fromRow := reset h st.fromRow } : CSt) = st0 at hconv hspec hrel0
     have e_prog : st0.prog = st.prog := by rw [← hst0]
     have e_files : st0.files = st.files := by rw [← hst0]
-    have e_fa : st0.fromAddress = (if st.fromRow.endSequence then 0 else st.fromAddress) := by rw [← hst0]
-    have hendEq : Rlast.endSequence = st.fromRow.endSequence := by rw [hrel.2.1]; rfl
-    have hsz8 : addrSize ≤ 8 := by omega
-    have hones64 := onesSized_lt addrSize hsz8
     cases hres : readRowLoop strs h false none st0 is with
     | err e => rw [hres] at hconv; simp at hconv
     | panic w => rw [hres] at hconv; simp at hconv
@@ -750,7 +966,7 @@ theorem convLoop_sim (m : Mode) (en : Endian) (format : Format) (addrSize : Nat)
         cases ev with
         | row p' w =>
           simp only [RowSpec] at hspec
-          obtain ⟨R1, htrIn, hR1end, hrel1, htame1, hline1, hlo1, hcr, hfr, hp', hpn⟩ := hspec
+          obtain ⟨R1, htrIn, hR1end, hrel1, hinseq1, htame1, hline1, hlo1, hcr, hfr, hpcond0⟩ := hspec
           obtain ⟨f1, f2, f3, f4, f5, more1, f6⟩ := hfr
           have henc' : st'.prog.enc = st.prog.enc := by rw [f5, e_prog]
           have hprev' : st'.prog.prevRow = st.prog.prevRow := by rw [f2, e_prog]
@@ -760,14 +976,7 @@ theorem convLoop_sim (m : Mode) (en : Endian) (format : Format) (addrSize : Nat)
           have hmax1 : st'.prog.enc.maxOps = 1 := by rw [henc', ← hag.2.2.1]; exact hm
           -- the writer's step
           have hpcond : PendOk p' st'.fromAddress wbase st'.prog.prevRow.addressOffset (minTombstone addrSize) := by
-            cases p' with
-            | some a =>
-              obtain ⟨a1, a2, a3⟩ := hp' a rfl
-              exact ⟨a1, by rw [hprev']; exact a2, by rw [← hag.1]; exact a3⟩
-            | none =>
-              obtain ⟨_, a2⟩ := hpn rfl
-              show st'.fromAddress = wbase
-              rw [a2, e_fa, hwb, hendEq]
+            rw [hprev', ← hag.1]; exact hpcond0
           have hstep : StepOk st'.prog.enc addrSize st'.fromAddress (prevAfter p' st'.prog.prevRow) w := by
             have hdiv : (w.addressOffset - (prevAfter p' st'.prog.prevRow).addressOffset) / st'.prog.enc.minInstLen ≤
                 w.addressOffset := Nat.le_trans (Nat.div_le_self _ _) (Nat.sub_le _ _)
@@ -797,18 +1006,20 @@ theorem convLoop_sim (m : Mode) (en : Endian) (format : Format) (addrSize : Nat)
           rw [happ] at hconv
           dsimp only at hconv
           -- the rest of the program
-          obtain ⟨new2, more2, g1, g2, g3, g4⟩ := ih rest _ stf R1 true st'.fromAddress
+          obtain ⟨new2, more2, g1, g2, g3, g4⟩ := ih rest _ stf R1 st'.fromAddress
             (rowOf st'.prog.enc.version st'.fromAddress w.cleared) (by omega) hconv
             (by show Agree h addrSize st'.prog.enc; rw [henc']; exact hag)
             (by show EncOk st'.prog.enc; rw [henc']; exact henc)
             (by show st'.prog.enc.version ≤ 5; rw [henc']; exact hv)
-            hrel1 htame1
+            (Or.inr hrel1) (by show Tame h (reset h R1) st'.inSeq rest; rw [hinseq1]; exact htame1)
             ⟨rfl, rfl, hwop, hwop, by show w.line < 2 ^ 63; rw [hwline]; exact hline1,
               by show w.addressOffset % st'.prog.enc.minInstLen = 0; rw [hwoff]; exact hwal,
               by rw [reset_address, hR1end]; simp only [Bool.false_eq_true, ↓reduceIte]
                  show st'.fromAddress + w.addressOffset ≤ R1.address; rw [hwoff]; omega,
-              by rw [hR1end]; rfl⟩
+              by rw [hR1end]; rfl,
+              by intro hx; rw [show st'.inSeq = true from hinseq1] at hx; cases hx⟩
           dsimp only at g1 g2 g3 g4
+          rw [show st'.inSeq = true from hinseq1] at g4
           refine ⟨is1 ++ new2, more1 ++ more2, ?_, ?_, ?_, fun bout => ?_⟩
           · rw [g1, f1, e_prog]; simp
           · rw [g2, f6, e_files]; simp
@@ -829,25 +1040,17 @@ theorem convLoop_sim (m : Mode) (en : Endian) (format : Format) (addrSize : Nat)
               simp [hR1end]
         | endSeq p' off =>
           simp only [RowSpec] at hspec
-          obtain ⟨R1, htrIn, hR1end, hrel1, htame1, hlo1, hoff, hal, hfr, hp', hpn⟩ := hspec
+          obtain ⟨R1, eb, htrIn, hR1end, hfrend, hinseq1, htame1, hlo1, hR1addr, hR1ones0, hal, hfr, hpcond0⟩ := hspec
           obtain ⟨f1, f2, f3, f4, f5, more1, f6⟩ := hfr
           have henc' : st'.prog.enc = st.prog.enc := by rw [f5, e_prog]
           have hprev' : st'.prog.prevRow = st.prog.prevRow := by rw [f2, e_prog]
           have hrow' : st'.prog.row = st.prog.row := by rw [f3, e_prog]
-          have hR1addr : R1.address = st'.fromRow.address + st'.fromAddress := by rw [hrel1.2.1]; rfl
-          have hR1ones : R1.address ≤ onesSized addrSize := by rw [← hag.1]; exact hrel1.2.2.2
+          have hR1ones : R1.address ≤ onesSized addrSize := by rw [← hag.1]; exact hR1ones0
           have hmax1 : st'.prog.enc.maxOps = 1 := by rw [henc', ← hag.2.2.1]; exact hm
           have hminE : st'.prog.enc.minInstLen = h.minInstLen := by rw [henc']; exact hminEq
-          have hpcond : PendOk p' st'.fromAddress wbase st'.prog.prevRow.addressOffset (minTombstone addrSize) := by
-            cases p' with
-            | some a =>
-              obtain ⟨a1, a2, a3⟩ := hp' a rfl
-              exact ⟨a1, by rw [hprev']; exact a2, by rw [← hag.1]; exact a3⟩
-            | none =>
-              obtain ⟨_, a2⟩ := hpn rfl
-              show st'.fromAddress = wbase
-              rw [a2, e_fa, hwb, hendEq]
-          have hendok : EndOk st'.prog.enc addrSize st'.fromAddress (prevAfter p' st'.prog.prevRow) st'.prog.row off := by
+          have hpcond : PendOk p' eb wbase st'.prog.prevRow.addressOffset (minTombstone addrSize) := by
+            rw [hprev', ← hag.1]; exact hpcond0
+          have hendok : EndOk st'.prog.enc addrSize eb (prevAfter p' st'.prog.prevRow) st'.prog.row off := by
             have hdiv : (off - (prevAfter p' st'.prog.prevRow).addressOffset) / st'.prog.enc.minInstLen ≤ off :=
               Nat.le_trans (Nat.div_le_self _ _) (Nat.sub_le _ _)
             cases p' with
@@ -861,7 +1064,7 @@ theorem convLoop_sim (m : Mode) (en : Endian) (format : Format) (addrSize : Nat)
               · omega
             | none =>
               simp only [prevAfter] at hdiv ⊢
-              have hb : st'.fromAddress = wbase := hpcond
+              have hb : eb = wbase := hpcond
               refine ⟨by rw [hprev', henc']; exact hpal, by rw [hminE]; exact hal,
                 by rw [hmax1, hprev', hpop]; exact Nat.zero_lt_one,
                 by rw [hmax1, hrow', hrop]; exact Nat.zero_lt_one, ?_,
@@ -871,21 +1074,24 @@ theorem convLoop_sim (m : Mode) (en : Endian) (format : Format) (addrSize : Nat)
                 simp only [Nat.mul_one, Nat.add_zero]
                 exact Nat.lt_of_le_of_lt hdiv (by omega)
               · omega
-          obtain ⟨is1, happ, htr1⟩ := applyEv_end_sim m en format addrSize st' p' off wbase st'.fromAddress
+          obtain ⟨is1, happ, htr1⟩ := applyEv_end_sim m en format addrSize st' p' off wbase eb
             (by rw [henc']; exact henc) hasz hpcond hendok
           dsimp only at hconv
           rw [happ] at hconv
           dsimp only at hconv
           have hres1 : reset h R1 = Row.new h := by unfold reset; rw [hR1end]; rfl
-          obtain ⟨new2, more2, g1, g2, g3, g4⟩ := ih rest _ stf R1 false 0
+          obtain ⟨new2, more2, g1, g2, g3, g4⟩ := ih rest _ stf R1 0
             (Row.new (readerParams en format addrSize st'.prog.enc)) (by omega) hconv
             (by show Agree h addrSize st'.prog.enc; rw [henc']; exact hag)
             (by show EncOk st'.prog.enc; rw [henc']; exact henc)
             (by show st'.prog.enc.version ≤ 5; rw [henc']; exact hv)
-            hrel1 (by rw [hres1]; exact htame1)
+            (Or.inl ⟨hR1end, hfrend⟩)
+            (by show Tame h (reset h R1) st'.inSeq rest; rw [hres1, hinseq1]; exact htame1)
             ⟨(rowOf_initial en format addrSize st'.prog.enc (by rw [henc']; exact hv)).symm, rfl, rfl, rfl,
-              by show (1 : Nat) < 2 ^ 63; decide, Nat.zero_mod _, Nat.zero_le _, by rw [hR1end]; rfl⟩
+              by show (1 : Nat) < 2 ^ 63; decide, Nat.zero_mod _, Nat.zero_le _, by rw [hR1end]; rfl,
+              fun _ => ⟨rfl, rfl⟩⟩
           dsimp only at g1 g2 g3 g4
+          rw [show st'.inSeq = false from hinseq1] at g4
           refine ⟨is1 ++ new2, more1 ++ more2, ?_, ?_, ?_, fun bout => ?_⟩
           · rw [g1, f1, e_prog]; simp
           · rw [g2, f6, e_files]; simp
@@ -991,11 +1197,11 @@ theorem progNew_spec (m : Mode) (format : Format) (addrSize : Nat) (e : Enc) (wd
 
 /-- the converter's own registers and the row-encoder state of the program are untouched -/
 def SF (st st' : CSt) : Prop :=
-  PF st.prog st'.prog ∧ st'.fromRow = st.fromRow ∧ st'.fromAddress = st.fromAddress
+  PF st.prog st'.prog ∧ st'.fromRow = st.fromRow ∧ st'.fromAddress = st.fromAddress ∧ st'.inSeq = st.inSeq
 
-theorem SF.refl (st : CSt) : SF st st := ⟨PF.refl _, rfl, rfl⟩
+theorem SF.refl (st : CSt) : SF st st := ⟨PF.refl _, rfl, rfl, rfl⟩
 theorem SF.trans {a b c : CSt} (h1 : SF a b) (h2 : SF b c) : SF a c :=
-  ⟨h1.1.trans h2.1, h2.2.1.trans h1.2.1, h2.2.2.trans h1.2.2⟩
+  ⟨h1.1.trans h2.1, h2.2.1.trans h1.2.1, h2.2.2.1.trans h1.2.2.1, h2.2.2.2.trans h1.2.2.2⟩
 
 theorem convertFiles_SF (strs : Strs) : ∀ (fs : List FileEntry) (st st' : CSt),
     convertFiles strs st fs = .ok st' → SF st st' := by
@@ -1009,8 +1215,8 @@ theorem convertFiles_SF (strs : Strs) : ∀ (fs : List FileEntry) (st st' : CSt)
     | ok st1 =>
       rw [hc] at h
       simp only [CRes.bind_ok] at h
-      obtain ⟨⟨f1, f2, f3, f4, f5, _⟩, e1, e2, _⟩ := convertFile_frame strs st st1 f hc
-      exact SF.trans ⟨⟨f1, f2, f3, f4, f5⟩, e1, e2⟩ (ih st1 st' h)
+      obtain ⟨⟨f1, f2, f3, f4, f5, _⟩, e1, e2, e3⟩ := convertFile_frame strs st st1 f hc
+      exact SF.trans ⟨⟨f1, f2, f3, f4, f5⟩, e1, e2, e3⟩ (ih st1 st' h)
     | err e => rw [hc] at h; simp at h
     | panic w => rw [hc] at h; simp at h
 
@@ -1031,7 +1237,7 @@ theorem convertDirs_SF (strs : Strs) : ∀ (ds : List AttrVal) (st st' : CSt),
         rw [ha] at h
         simp only [ofWrite, CRes.bind_ok] at h
         exact SF.trans (b := { st with prog := v2.1, tabs := v.1, dirs := st.dirs ++ [v2.2] })
-          ⟨addDirectory_PF st.prog v2.1 v.2 v2.2 ha, rfl, rfl⟩ (ih _ st' h)
+          ⟨addDirectory_PF st.prog v2.1 v.2 v2.2 ha, rfl, rfl, rfl⟩ (ih _ st' h)
       | err e => rw [ha] at h; simp [ofWrite] at h
       | panic w => rw [ha] at h; simp [ofWrite] at h
       | diverge => rw [ha] at h; simp [ofWrite] at h
@@ -1042,7 +1248,8 @@ theorem convNew_spec (m : Mode) (strs : Strs) (hd : Header) (tabs : Tabs) (st : 
     (h : convNew m strs hd tabs = .ok st) :
     ¬ (hd.p.lineBase > 0 ∨ hd.p.lineBase + (hd.p.lineRange : Int) ≤ 0) ∧
     st.prog.instrs = [] ∧ st.prog.prevRow = WRow.initial (encOf hd.p) ∧ st.prog.row = WRow.initial (encOf hd.p) ∧
-    st.prog.inSequence = false ∧ st.prog.enc = encOf hd.p ∧ st.fromRow = Row.new hd.p ∧ st.fromAddress = 0 := by
+    st.prog.inSequence = false ∧ st.prog.enc = encOf hd.p ∧ st.fromRow = Row.new hd.p ∧ st.fromAddress = 0 ∧
+    st.inSeq = false := by
   unfold convNew at h
   dsimp only at h
   cases h1 : workingDir strs hd tabs with
@@ -1069,15 +1276,16 @@ theorem convNew_spec (m : Mode) (strs : Strs) (hd : Header) (tabs : Tabs) (st : 
           | ok st1 =>
             rw [h4] at h
             simp only [CRes.bind_ok] at h
-            obtain ⟨⟨a1, a2, a3, a4, a5⟩, a6, a7⟩ := convertDirs_SF strs _ _ _ h4
-            obtain ⟨⟨b1, b2, b3, b4, b5⟩, b6, b7⟩ := convertFiles_SF strs _ _ _ h
+            obtain ⟨⟨a1, a2, a3, a4, a5⟩, a6, a7, a8⟩ := convertDirs_SF strs _ _ _ h4
+            obtain ⟨⟨b1, b2, b3, b4, b5⟩, b6, b7, b8⟩ := convertFiles_SF strs _ _ _ h
             exact ⟨hlb, by rw [b1]; show st1.prog.instrs = []; rw [a1]; exact q1,
               by rw [b2]; show st1.prog.prevRow = _; rw [a2]; exact q2,
               by rw [b3]; show st1.prog.row = _; rw [a3]; exact q3,
               by rw [b4]; show st1.prog.inSequence = _; rw [a4]; exact q4,
               by rw [b5]; show st1.prog.enc = _; rw [a5]; exact q5,
               by rw [b6]; show st1.fromRow = _; rw [a6],
-              by rw [b7]; show st1.fromAddress = _; rw [a7]⟩
+              by rw [b7]; show st1.fromAddress = _; rw [a7],
+              by rw [b8]; show st1.inSeq = _; rw [a8]⟩
           | err e => rw [h4] at h; simp at h
           | panic w => rw [h4] at h; simp at h
         | err e => rw [h3] at h; simp [ofWrite] at h
